@@ -1,4 +1,5 @@
 import P2.Props.C01
+import P2.Proofs.LangMono
 /-! # C10 — a generated function is a pure function of its arguments across evaluations
 
 In the model `Func.Eval` is `runCompiled M fuel code`: every evaluation starts from a fresh storage
@@ -42,5 +43,12 @@ theorem failing_eval_harmless (M : Methods) (fuel : Nat) (code : Code) (h1 h2 : 
     evalHistory M fuel code (h1 ++ bad :: h2) =
       evalHistory M fuel code h1 ++ runCompiled M fuel code bad :: evalHistory M fuel code h2 := by
   simp [eval_history]
+
+/-- C10 and the fuel budget: an evaluation that ends (value, error, `unmodelled` — anything but
+running out of fuel) ends the same way under every larger budget, so the outcomes of a history do
+not depend on how much fuel the evaluations were given (`Proofs/LangMono.lean`) -/
+theorem eval_fuel_irrelevant (M : Methods) (fuel fuel' : Nat) (code : Code) (args : List Val) (r : R Val)
+    (h : runCompiled M fuel code args = r) (hr : r ≠ .fuel) (hle : fuel ≤ fuel') :
+    runCompiled M fuel' code args = r := runCompiled_fuel_mono M h hr hle
 
 end P2.C10
